@@ -864,7 +864,6 @@ class ModuleVistor(NodeVisitor):
                                 lineno_offset=value.lineno - attr.linenumber)
                 attr.setDocstring(value)
                 self.builder.currentAttr = None
-        self.generic_visit(node)
 
 
     def visit_AsyncFunctionDef(self, node: ast.AsyncFunctionDef) -> None:
